@@ -7,5 +7,6 @@ CONSTANTS Cids = {1, 2}
           NCalls = 2
           Wide = TRUE
           MaxNs = {1, 1000}
+          Family = "mix"
 INVARIANT Emit
 CHECK_DEADLOCK FALSE
